@@ -9,6 +9,7 @@ variable {F : Type} [Scalar F]
 
 theorem reset_eq (s : CommodityChannelIndex F) (h : WF s) : s.reset = some (fresh s.period_fn) := by
   unfold reset
+  try simp only [gen_helper]
   simp [SimpleMovingAverage.reset_eq _ h.sma, MeanAbsoluteDeviation.reset_eq _ h.mad, fresh, period_fn,
     SimpleMovingAverage.period_fn_eq, h.per]
 
